@@ -168,6 +168,16 @@ def behaviour(paths, codec, options, cache_dir, seed, keep=None,
             'lines': lines}
 
 
+def samesize_variant(files, index):
+    """A variant with exactly the same file sizes: one letter of the
+    hand-written probe member changed (x9005 -> y9005, z9005, ...)."""
+
+    letter = 'yzwvu'[index % 5]
+
+    return [[name, text.replace('x9005 INTEGER', letter + '9005 INTEGER')]
+            for name, text in files]
+
+
 def rename_variant(files, index):
     """Variant `index` of a file set: one member identifier renamed
     everywhere (changes every codec's decoded values)."""
@@ -326,8 +336,11 @@ class C17(Engine):
         large = knobs.random() < 0.3
         files, module_name = self.gen_family(run_seed, large)
         variants = [rename_variant(files, i) for i in range(3)]
-        # Two more variants with equal concatenated bytes but different
-        # file boundaries.
+        # ... two that keep every file's size (an edit a size/mtime based
+        # shortcut would not notice) ...
+        variants += [samesize_variant(files, 1), samesize_variant(files, 2)]
+        # ... and two with equal concatenated bytes but different file
+        # boundaries.
         joined = [[files[0][0], ''.join(t for _, t in files)
                    + TRAILER_HEAD + TRAILER_TAIL]]
         split = [[files[0][0], ''.join(t for _, t in files) + TRAILER_HEAD],
@@ -431,7 +444,12 @@ class C17(Engine):
         ops.append(dict(compile_args(), op='compile'))
 
         return {'variants': variants, 'ops': ops, 'seed': run_seed,
-                'module': module_name}
+                'module': module_name,
+                # The file system clock is part of the simulation: source
+                # files keep one frozen modification time (edits within the
+                # same second, cp -p, coarse time stamps), or it advances.
+                'mtime': knobs.choice(['frozen', 'frozen', 'advance',
+                                       'real'])}
 
     def gen_bitflip_case(self, run_seed):
         rng = random.Random(mix(run_seed, 'bitflip'))
@@ -460,7 +478,7 @@ class C17(Engine):
             large = scenario == 3
 
         files, module_name = self.gen_family(mix(seed, 'scenario'), large)
-        variants = [rename_variant(files, i) for i in range(2)]
+        variants = [files, samesize_variant(files, 1)]
         rng = random.Random(mix(seed, 'scenario-codecs'))
         c1, c2 = rng.sample(CODECS, 2)
 
@@ -493,7 +511,8 @@ class C17(Engine):
                    dict(args(c2), op='compile')]
 
         return {'variants': variants, 'ops': ops, 'seed': seed,
-                'module': module_name, 'scenario': scenario}
+                'module': module_name, 'scenario': scenario,
+                'mtime': 'frozen'}
 
     def run_sweep(self, item):
         result = Result()
@@ -624,6 +643,17 @@ class C17(Engine):
 
                 with open(path, 'wb') as fout:
                     fout.write(text.encode('utf-8'))
+
+                mode = case.get('mtime', 'real')
+
+                if mode != 'real':
+                    stamp = 1700000000 * 10 ** 9
+
+                    if mode == 'advance':
+                        state['edits'] = state.get('edits', 0) + 1
+                        stamp += state['edits'] * 3 * 10 ** 9
+
+                    os.utime(path, ns=(stamp, stamp))
 
                 paths.append(path)
 
